@@ -178,6 +178,9 @@ func c15Rules(c *core.Ctx, k *core.Case) {
 		c.Fail(k, "rules-marshal-error", fmt.Sprintf("MarshalBinary of a well-formed rule list failed: %v (reference bytes %s)", err, hx(want)))
 		return
 	}
+	if again, err2 := lib.MarshalBinary(); err2 != nil || !bytes.Equal(again, got) {
+		c.Fail(k, "rules-marshal-not-repeatable", fmt.Sprintf("a second MarshalBinary of the same list gives %s (err %v), the first gave %s", hx(again), err2, hx(got)))
+	}
 	if !bytes.Equal(got, want) {
 		c.Fail(k, "rules-layout", fmt.Sprintf("QoSRules.MarshalBinary = %s, TS 24.501 9.11.4.13 layout %s", hx(got), hx(want)))
 		return
@@ -185,6 +188,10 @@ func c15Rules(c *core.Ctx, k *core.Case) {
 	var back nasType.QoSRules
 	if err := back.UnmarshalBinary(cloneB(want)); err != nil {
 		c.Fail(k, "rules-unmarshal-error", fmt.Sprintf("UnmarshalBinary(%s): %v", hx(want), err))
+		return
+	}
+	if err := back.UnmarshalBinary(cloneB(want)); err != nil || len(back) != len(model) {
+		c.Fail(k, "rules-unmarshal-into-reused-receiver", fmt.Sprintf("a second UnmarshalBinary into the same value gives %d rules (err %v), the list has %d", len(back), err, len(model)))
 		return
 	}
 	bm, err := modelRules(back)
@@ -266,6 +273,9 @@ func c15Descs(c *core.Ctx, k *core.Case) {
 	if err != nil || !bytes.Equal(got, want) {
 		c.Fail(k, "descs-layout", fmt.Sprintf("QoSFlowDescs.MarshalBinary = %s (%v), TS 24.501 9.11.4.12 layout %s", hx(got), err, hx(want)))
 		return
+	}
+	if again, err2 := lib.MarshalBinary(); err2 != nil || !bytes.Equal(again, got) {
+		c.Fail(k, "descs-marshal-not-repeatable", fmt.Sprintf("a second MarshalBinary of the same list gives %s (err %v), the first gave %s", hx(again), err2, hx(got)))
 	}
 	var back nasType.QoSFlowDescs
 	if err := back.UnmarshalBinary(cloneB(want)); err != nil {
